@@ -126,13 +126,16 @@ func (x *Exec) checkEnsures(st *State, fr *Frame, res Val) {
 // checkFrame: every heap array that differs from its entry version may differ only at the references named by
 // the modifies clause (evaluated in the entry state), at freshly allocated references, and at nil.
 func (x *Exec) checkFrame(st *State, fr *Frame, c *Contract, at string) {
-	if !c.HasMod || c.NoFrame {
+	if !c.HasMod || (c.NoFrame && len(c.FrameOnly) == 0) {
 		return // no frame claimed
 	}
 	for _, l := range c.Modifies {
 		if l == "*" || l == "heap" {
 			return
 		}
+	}
+	if len(c.FrameOnly) > 0 && x.onlyTag != "" && len(c.FrameTags) > 0 && !contains(c.FrameTags, x.onlyTag) {
+		return
 	}
 	if st.epoch != st.entry.epoch {
 		x.oblige(st, fmt.Sprintf("%s/frame", x.curFunc), "frame", nil, tFalse, fr.fn.Pos(), "whole heap was havocked but the contract has a modifies clause")
@@ -211,6 +214,17 @@ func (x *Exec) checkFrame(st *State, fr *Frame, c *Contract, at string) {
 		if strings.HasPrefix(k, "map:") && mapsAll {
 			continue
 		}
+		if len(c.FrameOnly) > 0 {
+			mine := false
+			for _, sn := range c.FrameOnly {
+				if strings.HasPrefix(k, sn+".") {
+					mine = true
+				}
+			}
+			if !mine {
+				continue
+			}
+		}
 		var excl []string
 		excl = append(excl, "(= (is_fresh r!) 0)", "(not (= r! ref_nil))")
 		refs := allowed[k]
@@ -221,7 +235,11 @@ func (x *Exec) checkFrame(st *State, fr *Frame, c *Contract, at string) {
 			excl = append(excl, "(not (= r! "+r.S+"))")
 		}
 		goal := Term{S: "(forall ((r! Ref)) (=> (and " + strings.Join(excl, " ") + ") (= (select " + cur.S + " r!) (select " + entry.S + " r!))))", Sort: sBool}
-		x.oblige(st, fmt.Sprintf("%s/frame:%s", x.curFunc, k), "frame", nil, goal, fr.fn.Pos(), k+" of pre-existing objects outside the modifies clause unchanged ("+at+")")
+		var ftags []string
+		if len(c.FrameOnly) > 0 {
+			ftags = c.FrameTags
+		}
+		x.oblige(st, fmt.Sprintf("%s/frame:%s", x.curFunc, k), "frame", ftags, goal, fr.fn.Pos(), k+" of pre-existing objects outside the modifies clause unchanged ("+at+")")
 	}
 }
 
